@@ -58,5 +58,6 @@ struct Port {
     }
 };
 int enum_key(Port::MetaContainer meta, const char* value);
+int enum_key_from_msg(Port::MetaContainer meta, const char* msg);
 }
 #endif
